@@ -253,8 +253,9 @@ def runSpec (st : St) (q : Stmt) (having : List HTok) : String :=
     let sols := solutions scan (q.lower.map (·.nanos)) (q.upper.map (·.nanos)) q.clauses
     let cols := dedup q.outputBindings
     let staged : Except QErr (List Row) :=
-      if q.groupBy.isEmpty then .ok (sols.map (project q.projs)) else groupReduce S floatAddBits q sols
+      if q.groupBy.isEmpty then .ok (sols.map (project q.projs)) else groupReduceWith sumExact S floatAddBits q sols
     match staged with
+    | .error .sumOrderDependent => "unsupported"
     | .error _ => "err"
     | .ok rows =>
       let mixedKeyBefore := q.orderBy.any fun (k, _) => (dedupNat (rows.map fun r => cellKind ((r.get k).getD .null))).length > 1
